@@ -189,6 +189,31 @@ def install():
     for m in (m2, m3, m4):
         if getattr(m, 'time', None) is real_time:
             m.time = tm
+    # asyncio.wait() returns the finished tasks as a *set* (iteration order = memory
+    # addresses).  Threadless iterates it to clean works up, so own that order:
+    # canonical (by work id) by default, every permutation under kind 'O'.
+    import asyncio as real_asyncio
+    import itertools
+
+    class _AsyncioShim(types.ModuleType):
+        def __getattr__(self, name):
+            return getattr(real_asyncio, name)
+
+    ash = _AsyncioShim('asyncio')
+
+    async def wait(fs, timeout=None, return_when=real_asyncio.ALL_COMPLETED):
+        done, pending = await real_asyncio.wait(fs, timeout=timeout, return_when=return_when)
+        w = World.current
+        if w is None:
+            return done, pending
+        lst = sorted(done, key=lambda t: getattr(t, '_work_id', 0))
+        if len(lst) > 1 and 'O' in w.kinds:
+            perms = list(itertools.permutations(lst))[:6]
+            lst = list(perms[w.choose('O', len(perms), 'finished-task order')])
+        return lst, pending
+    ash.wait = wait
+    if getattr(m1, 'asyncio', None) is real_asyncio:
+        m1.asyncio = ash
     # random.choice in the reverse proxy is a data choice point
     import proxy.http.server.reverse as m6
 
@@ -410,6 +435,12 @@ class Client(Peer):
     def step_enabled(self):
         """Return the action to perform now, or None if waiting / finished."""
         if not self.connected:
+            if self.start_turn == 'idle':
+                # connect once everything before us has gone quiet
+                ok = self.w.idle_turns >= 2 and all(
+                    c.connected and (c.done() or c.step_enabled() is None)
+                    for c in self.w.clients[:self.idx])
+                return ('connect',) if ok else None
             return ('connect',) if self.w.turn >= self.start_turn else None
         while self.pc < len(self.script):
             st = self.script[self.pc]
@@ -614,6 +645,7 @@ class WorldImpl(World):
         self.activity = 0          # bumped by any env action / SUT io
         self.all_socks = []
         self.sut_roles = {}        # inode -> role name
+        self.role_addr = {}        # upstream role -> (ip, port)
         self.sut_created = []      # (role, fileno at creation)
         self.sut_closed = []       # (role, fileno)
         self.connect_log = []      # (family, addr, outcome)
@@ -655,6 +687,21 @@ class WorldImpl(World):
             self.trace.append((self.turn, 'env', 'deviate', (kind, c, meta)))
         return c
 
+    def fault_ok(self, role, addr=None):
+        """Faults (kind F) and short writes may be restricted to some connections of a scenario:
+        features['_fault_clients'] = set of client names, ['_fault_addrs'] = set of upstream addrs."""
+        fc = self.scn.features.get('_fault_clients')
+        fa = self.scn.features.get('_fault_addrs')
+        if fc is None and fa is None:
+            return True
+        if addr is not None:
+            return fa is not None and addr in fa
+        if role is None:
+            return False
+        if role.startswith('c'):
+            return fc is not None and role in fc
+        return fa is not None and self.role_addr.get(role) in fa
+
     def mkpair(self):
         a, b = socket.socketpair()
         sb = self.scn.features.get('_sockbuf')
@@ -692,7 +739,7 @@ class WorldImpl(World):
         key = (addr[0], addr[1])
         fam = {socket.AF_INET: 'inet', socket.AF_INET6: 'inet6'}.get(sock.family, str(sock.family))
         outcome = 'accept' if key in self.scn.origins else self.scn.net.get(key, 'refuse')
-        if 'F' in self.kinds:
+        if 'F' in self.kinds and self.fault_ok(None, key):
             c = self.choose('F', 1 + len(CONNECT_ERRS), ('connect', key))
             if c:
                 outcome = {errno.ECONNREFUSED: 'refuse', errno.ETIMEDOUT: 'timeout',
@@ -715,6 +762,7 @@ class WorldImpl(World):
             fcntl.fcntl(sock.fileno(), fcntl.F_SETFL, fl)
             _py_close(a)
             self.sut_roles[_ino(sock.fileno())] = role
+            self.role_addr[role] = key
             self.sut_created.append((role, sock.fileno()))
             oc = OriginConn(self, 'o%d' % n, b, key, self.scn.origins[key]())
             self.origin_conns.append(oc)
@@ -725,7 +773,7 @@ class WorldImpl(World):
     def sut_send(self, sock, role, data, flags):
         n = len(data)
         alts = [('ok', n)]
-        if 'S' in self.kinds and n > 0:
+        if 'S' in self.kinds and n > 0 and self.fault_ok(role):
             if n > 1:
                 alts.append(('ok', 1))
             if n > 2:
@@ -733,7 +781,7 @@ class WorldImpl(World):
             if n > 5:
                 alts.append(('ok', n // 2))
             alts.append(('block',))
-        if 'F' in self.kinds:
+        if 'F' in self.kinds and self.fault_ok(role):
             alts += [('err', e) for e in SEND_ERRS]
         c = self.choose('S', len(alts), ('send', role, n)) if len(alts) > 1 else 0
         a = alts[c]
@@ -755,7 +803,7 @@ class WorldImpl(World):
         return r
 
     def sut_recv(self, sock, role, n, flags):
-        if 'F' in self.kinds:
+        if 'F' in self.kinds and self.fault_ok(role):
             c = self.choose('F', 1 + len(RECV_ERRS), ('recv', role))
             if c:
                 e = RECV_ERRS[c - 1]
